@@ -116,10 +116,15 @@ def gen_boundary(rng):
         extra = extra.replace('q', 'q') if 'q' in body else extra
         return '%s :- %s.%s' % (head, body, extra), k
     if k == 'longconj':
-        n = rng.randrange(1, 41)
+        # lengths everywhere, and dense around the largest clause Python can hold (20 nested blocks)
+        n = rng.randrange(1, 41) if rng.random() < 0.5 else rng.choice([15, 16, 17, 18, 19, 20, 21, 22])
         goal = rng.choice(['q', 'q(X)', 'X = a', 'true', '\\+ q'])
         head = rng.choice(['p', 'p(a)', 'p(X,Y)', 'p(a,b,[c])'])
-        return 'q.\nq(a).\n%s :- %s.' % (head, ', '.join([goal] * n)), k
+        # ... ending in a goal that compiles to little or nothing (dead branches, negations, cuts)
+        final = rng.choice(['', '', '', '(fail -> q ; fail)', '(fail, q -> q ; fail, q)', '\\+ true', '(fail ; fail)', '(true -> fail)', '!',
+                            '(q -> true ; fail)', '(fail -> true)', '\\+ \\+ fail', '(q ; fail)', '(fail -> q ; q)'])
+        goals = [goal] * n + ([final] if final else [])
+        return 'q.\nq(a).\n%s :- %s.' % (head, ', '.join(goals)), k
     if k == 'nesting':
         n = rng.randrange(1, 26)
         kind = rng.choice(['ite', 'ite_cond', 'or', 'not', 'paren', 'then', 'and_left'])
